@@ -1007,6 +1007,8 @@ class Evaluator:
       if r is not None:
         return r
     op = base.op
+    if op == 'slice' and name in ('start', 'stop', 'step'):
+      return base.args[('start', 'stop', 'step').index(name)]        # fields of a slice object
     if op == 'mod':
       sc = self.module_scope(base.args[0])
       if name in sc.vars:
